@@ -633,7 +633,9 @@ func c18r4(c *Check) {
 	}
 	var branches []bool
 	_ = branches
-	cfg := &PathCfg{Classify: func(in ssa.Instruction) []string {
+	// helpers of the package are expanded, so the key comparison may live in a lookup helper
+	// (findRoute(routes, key) (index, found)): its results are bound along the path
+	cfg := &PathCfg{Inline: func(g *ssa.Function) bool { return fnPkg(g) == fnPkg(fn) && g != fn }, Classify: func(in ssa.Instruction) []string {
 		if _, _, ok := publishedAccess(in, atomicStore); ok {
 			return []string{"store"}
 		}
